@@ -5,6 +5,8 @@
 use crate::trait_group::c_void;
 use core::mem::MaybeUninit;
 use std::prelude::v1::*;
+#[cfg(kani)]
+use core::{assert, unreachable};
 
 /// FFI compatible iterator.
 ///
@@ -99,3 +101,8 @@ pub trait AsCIterator: Iterator + Sized {
 }
 
 impl<T: Iterator> AsCIterator for T {}
+
+#[cfg(kani)]
+mod verif_kani {
+    include!(concat!(env!("H33P_CGLUE_VERIF_DIR"), "/iter.rs"));
+}
